@@ -37,11 +37,16 @@ pub struct Env {
     pub max_steps: u64,
     #[serde(default)]
     pub join_on_exit: bool,
+    /// a scheduling point right AFTER every lock acquisition: a lock-held window that contains no
+    /// other visible operation would otherwise be atomic, and no try_lock / try_read / try_write of
+    /// another thread could ever find the lock taken
+    #[serde(default)]
+    pub yield_in_locks: bool,
 }
 
 impl Env {
     pub fn basic(hash_seed: u64) -> Env {
-        Env { strategy: Strategy::Uniform, spurious_pct: 0, tick_pct: 0, stall: None, hash_seed, hb: false, max_steps: 20_000, join_on_exit: false }
+        Env { strategy: Strategy::Uniform, spurious_pct: 0, tick_pct: 0, stall: None, hash_seed, hb: false, max_steps: 20_000, join_on_exit: false, yield_in_locks: false }
     }
     /// Swarm-style environment drawn from `r`; `faults` false gives the fault-free sub-batch.
     pub fn swarm(r: &mut Rng, nthreads: usize, est_steps: u64, faults: bool) -> Env {
@@ -56,7 +61,10 @@ impl Env {
         } else {
             None
         };
-        Env { strategy, spurious_pct, tick_pct: 0, stall, hash_seed: r.next(), hb: false, max_steps: est_steps * 20 + 2000, join_on_exit: false }
+        let hash_seed = r.next();
+        // drawn from a stream of its own, so that plans stay what they were
+        let yield_in_locks = nthreads > 1 && Rng::new(hash_seed, 77).chance(25);
+        Env { strategy, spurious_pct, tick_pct: 0, stall, hash_seed, hb: false, max_steps: est_steps * 20 + 2000, join_on_exit: false, yield_in_locks }
     }
 }
 
@@ -861,7 +869,7 @@ impl Hooks for H {
         let spurious = std::mem::replace(&mut st.th[me].spur, false);
         st.push(Ev::Op { t: me as u8, kind: op.kind, loc, ord: op.order, a: op.a, b: op.b, res: result, ok, spurious, line: op.line });
         let is_cas = matches!(op.kind, OpKind::Cas | OpKind::CasWeak);
-        let rmw_ok = matches!(op.kind, OpKind::Swap | OpKind::FetchAdd | OpKind::FetchSub) || (is_cas && ok);
+        let rmw_ok = matches!(op.kind, OpKind::Swap | OpKind::FetchAdd | OpKind::FetchSub | OpKind::Rmw) || (is_cas && ok);
         let acq = |o: O| matches!(o, O::Acquire | O::AcqRel | O::SeqCst);
         let rls = |o: O| matches!(o, O::Release | O::AcqRel | O::SeqCst);
         if me >= st.th[me].vc.len() {
@@ -874,10 +882,17 @@ impl Hooks for H {
                 let l = st.locs[li].lockvc.clone();
                 vjoin(&mut st.th[me].vc, &l);
             }
-            OpKind::MutexTryLock => {
+            OpKind::MutexTryLock | OpKind::RwTryWrite => {
                 // never blocks; when it took the lock it counts as an acquisition from here on
                 if ok {
                     st.locs[li].lock.writer = Some(me);
+                    let l = st.locs[li].lockvc.clone();
+                    vjoin(&mut st.th[me].vc, &l);
+                }
+            }
+            OpKind::RwTryRead => {
+                if ok {
+                    st.locs[li].lock.readers.push(me);
                     let l = st.locs[li].lockvc.clone();
                     vjoin(&mut st.th[me].vc, &l);
                 }
@@ -934,7 +949,7 @@ impl Hooks for H {
         }
         // ---------- conflict signature
         let modifying = rmw_ok || op.kind == OpKind::Store;
-        let lock_excl = matches!(op.kind, OpKind::MutexLock | OpKind::RwWriteLock) || (op.kind == OpKind::MutexTryLock && ok);
+        let lock_excl = matches!(op.kind, OpKind::MutexLock | OpKind::RwWriteLock) || (matches!(op.kind, OpKind::MutexTryLock | OpKind::RwTryWrite) && ok);
         if modifying || lock_excl {
             let class = if matches!(op.kind, OpKind::Swap | OpKind::Store) { 2 } else { 1 };
             let l = &mut st.locs[li];
@@ -975,6 +990,12 @@ impl Hooks for H {
             // injected failure: must not arm the spin rule; keep an earlier genuine failure
         } else {
             st.th[me].last_fail = None;
+        }
+        let acquired = matches!(op.kind, OpKind::MutexLock | OpKind::RwWriteLock | OpKind::RwReadLock) || (matches!(op.kind, OpKind::MutexTryLock | OpKind::RwTryRead | OpKind::RwTryWrite) && ok);
+        if acquired && st.env.yield_in_locks && st.th[me].status != Status::Exiting {
+            st.steps += 1;
+            st.th[me].pending = None;
+            let _st = self.sim.handoff(st, me);
         }
     }
 
